@@ -6,7 +6,7 @@ class Prop(CoreProp):
     ID = "C08"
     checks = ['C08']
     scheds = ['eager']
-    tiers = {"quick": {"runs": 400, "selftest_runs": 4}, "thorough": {"runs": 8000, "selftest_runs": 32}}
+    tiers = {"quick": {"runs": 800, "selftest_runs": 4}, "thorough": {"runs": 8000, "selftest_runs": 32}}
     feat = {'n_conflicts': (1, 4), 'prio': True, 'n_before': (0, 2), 'no_amb': True, 'p_self_conflict_excl': 0.4, 'p_alias': 0.4}
     rule = 'one run = one generated program (1-3 modules, 1-5 transactions, 0-6 methods, call depth <= 3, nested bodies, If/Switch/FSM around bodies and calls, enable_call, validate_arguments, aliases, nonexclusive methods, prioritised add_conflict relations and schedule_before chains) under one arbiter and one internal set order, driven for 60-160 cycles by a seeded phase plan (random / all-on contention / single-method stall / flapping / exhaustive valuation sweep when <= 10 one-bit inputs); distinct = distinct (program, arbiter, set of transactions running in a cycle); non-trivial = at least one transaction ran'
     expected_cov = ['prioritised_pair_both_enabled', 'high_priority_won', 'low_priority_ran_because_high_blocked_by_third', 'schedule_before_pair_runs_together']
